@@ -98,7 +98,7 @@ m = {
     }],
     'checks': checks,
     'not_applicable': [],
-    'notes': 'exit codes: 0 held on everything explored; 1 violation (VIOLATION line + replay file); 2 inconclusive (INCONCLUSIVE line; build failure, harness error or a required input class was not observed). Six genuine defects of the pinned commit were repaired by fix: commits in /repo (see KNOWN_FINDINGS.txt, DESIGN.md section 8).',
+    'notes': 'Every check also runs two generic perturbation passes on a sample of its own cases (every call made twice in a row; every program on 8 threads at once) and records them in coverage.perturbation_passes. Calibration: 108 seeded changes written by sub-agents (seeded/RESULTS.md), 15 hand-made ones (mutants/), 20 behaviour-preserving changes on which all checks stay silent (benign/). exit codes: 0 held on everything explored; 1 violation (VIOLATION line + replay file); 2 inconclusive (INCONCLUSIVE line; build failure, harness error or a required input class was not observed). Six genuine defects of the pinned commit were repaired by fix: commits in /repo (see KNOWN_FINDINGS.txt, DESIGN.md section 8).',
 }
 json.dump(m, open(os.path.join(V, 'MANIFEST.json'), 'w'), indent=1)
 print('wrote MANIFEST.json with', len(checks), 'checks')
